@@ -109,3 +109,28 @@ func TestVerifC03RegressionStalePendingPolicyFlags(t *testing.T) {
 		t.Fatalf("tracked policy pa (tier default, ingress+egress) matches the endpoint, but the endpoint was sent tiers %s", c03TiersString(em.Tiers))
 	}
 }
+
+// A tier is deleted while its policy stays, the result is flushed, and the tier then comes back
+// exactly as it was (no order, no default action, as an older Typha sends tiers): the endpoint must be sent the tiers in name order again.
+// (Round-2 seeded change C03-e; the random search covers this through its "tier bounce" move.)
+func TestVerifC03RegressionTierRestoredUnchanged(t *testing.T) {
+	ev.Quiet()
+	r := c03NewRegress()
+	tier := func() *model.Tier { return &model.Tier{} }
+	pol := func(tr string) *model.Policy { return &model.Policy{Tier: tr, Selector: "all()"} }
+	pb := model.PolicyKey{Name: "pb", Kind: v3.KindGlobalNetworkPolicy}
+	r.set(model.TierKey{Name: "default"}, tier(), api.UpdateTypeKVNew)
+	r.set(model.TierKey{Name: "t1"}, tier(), api.UpdateTypeKVNew)
+	r.set(r.wepKey, r.wep("x"), api.UpdateTypeKVNew)
+	r.set(r.polKey, pol("default"), api.UpdateTypeKVNew)
+	r.set(pb, pol("t1"), api.UpdateTypeKVNew)
+	r.g.flush()
+	r.set(model.TierKey{Name: "default"}, nil, api.UpdateTypeKVDeleted)
+	r.g.flush()
+	r.set(model.TierKey{Name: "default"}, tier(), api.UpdateTypeKVNew)
+	r.g.flush()
+	em := r.g.fold.weps[c03WepIDOfKey(r.wepKey)]
+	if em == nil || len(em.Tiers) != 2 || em.Tiers[0].Name != "default" || em.Tiers[1].Name != "t1" {
+		t.Fatalf("tiers default and t1 both exist without order; the endpoint must list default before t1 but was sent %s", c03TiersString(em.GetTiers()))
+	}
+}
